@@ -416,6 +416,8 @@ def run(ck, tier):
     _infl.run(ck, F, 'C18')
     from . import mustpass as _mp
     _mp.run(ck, F, 'C18')
+    from . import accum as _acc2
+    _acc2.run2(ck, F, 'C18')
     # resumable varint decoder of the Avro reader: a short read must not lose or mis-shift the partial value (rules of C14)
     from . import c14, core
     c14.run_resumable(core.Renamed(ck, "C14.", "C18."), F)
